@@ -20,7 +20,7 @@ WANT_M2S = {((1, 1, 0), (2, 0, 0)), ((1, 0, 0), (2, 0, 1))}     # target row a*i
 
 
 def perm(run, f, loop_form):
-    res = parallel.permutation_loop(f) if loop_form else parallel.permutation_slices(f)
+    res = parallel.permutation_any(f)
     out = {}
     for arr, items in res.items():
         pairs = set()
@@ -57,7 +57,7 @@ def check(run):
             bind.check_function_calls(run, repo, f)
             if loop_form:
                 loops = [st for st, _ in walk(f.node) if isinstance(st, ast.For)]
-                ok = len(loops) == 1 and norm(loops[0].iter).replace(' ', '') == 'range(N)'
+                ok = all(norm(l.iter).replace(' ', '') in ('range(N)', 'range(0,N)') for l in loops)      # one loop or several (fission), or slices
                 run.check(ok, 'R13.perm', f, 'for i in range(N)', 'all N qubits are converted')
             rets = [st.value for st, _ in walk(f.node) if isinstance(st, ast.Return)]
             run.check(len(rets) == 1 and isinstance(rets[0], ast.Tuple) and [bind.expr_role(f, e) for e in rets[0].elts] == ['STRING', 'PHASE'],
@@ -143,20 +143,22 @@ def check(run):
         from ..names import return_names
         rn = return_names(ss)
         SV = rn[0] if len(rn) == 1 and rn[0] else 'state'
-        base = [norm(st.value).replace(' ', '') for st, _ in walk(ss.node) if isinstance(st, ast.Assign) and norm(st.targets[0]) == SV]
+        from ..names import itext
+        base = [itext(ss, st.value) for st, _ in walk(ss.node) if isinstance(st, ast.Assign) and norm(st.targets[0]) == SV]
         run.check(len(base) == 1 and base[0].startswith('maximally_mixed_state(stabilizers.N'), 'R2.rank', ss, 'state = maximally_mixed_state(N)',
                   'the projection starts from the maximally mixed state (found %s)' % base)
-        flipped_g = any('flipud(stabilizers.gs)' in norm(st.value).replace(' ', '') for st, _ in proj)
+        flipped_g = any('flipud(stabilizers.gs)' in itext(ss, st.value) for st, _ in proj)
         signs = [st for st, _ in walk(ss.node) if isinstance(st, ast.Assign) and isinstance(st.targets[0], ast.Subscript)
                  and norm(st.targets[0].value) == SV + '.ps']
         if len(signs) != 1:
             run.violation('R13.signs', ss, 'state.ps[...] = stabilizers.ps', 'the signs of the stabilizers must be assigned exactly once')
         else:
             st = signs[0]
-            sl = norm(st.targets[0].slice).replace(' ', '')
-            run.check(sl == '%s.r:%s.N' % (SV, SV), 'R13.signs', ss, st, 'signs belong to the active stabilizer rows [state.r:state.N] (found [%s])' % sl)
-            flipped_p = 'flipud' in norm(st.value) or '[::-1]' in norm(st.value).replace(' ', '')
-            run.check(flipped_g != flipped_p and 'stabilizers.ps' in norm(st.value), 'R13.signs', ss, st,
+            sl = itext(ss, st.targets[0].slice, skip=(SV,))
+            # the state was built as maximally_mixed_state(stabilizers.N): its N is the N of the stabilizers
+            run.check(sl in ('%s.r:%s.N' % (SV, SV), '%s.r:stabilizers.N' % SV, '%s.r:' % SV), 'R13.signs', ss, st, 'signs belong to the active stabilizer rows [state.r:state.N] (found [%s])' % sl)
+            flipped_p = 'flipud' in itext(ss, st.value) or '[::-1]' in itext(ss, st.value)
+            run.check(flipped_g != flipped_p and 'stabilizers.ps' in itext(ss, st.value), 'R13.signs', ss, st,
                       'each projection lands on the row just below the previous one, so the strings are projected in reverse order '
                       'and the signs assigned in input order (exactly one of the two is flipped)')
             run.check(st.lineno > proj[0][0].lineno if proj else False, 'R13.signs', ss, st, 'signs are assigned after the projection fixed the rank')
@@ -165,15 +167,15 @@ def check(run):
         # to_qutip
         tq = repo.func(rel, 'StabilizerState.to_qutip')
         loops = [st for st, _ in walk(tq.node) if isinstance(st, ast.For) and not isinstance(st.iter, ast.ListComp)]
-        loops = [l for l in loops if norm(l.iter).replace(' ', '').startswith('range(self.r')]
-        run.check(len(loops) == 1 and norm(loops[0].iter).replace(' ', '') == 'range(self.r,self.N)', 'R6.qutip', tq, 'range(self.r, self.N)',
+        loops = [l for l in loops if itext(tq, l.iter).startswith('range(self.r')]
+        run.check(len(loops) == 1 and itext(tq, loops[0].iter) == 'range(self.r,self.N)', 'R6.qutip', tq, 'range(self.r, self.N)',
                   'the density matrix is the product of the projectors of the active stabilizers [r, N)')
         if loops:
             i = loops[0].target.id
             pc = [c for c in ast.walk(loops[0]) if isinstance(c, ast.Call) and norm(c.func) == 'Pauli']
             run.check(len(pc) == 1 and [norm(a).replace(' ', '') for a in pc[0].args] == ['self.gs[%s]' % i, 'self.ps[%s]' % i], 'R6.qutip', tq, 'Pauli(self.gs[i], self.ps[i])',
                       'each projector uses string and sign of the same row')
-        norms = [st for st, _ in walk(tq.node) if isinstance(st, ast.Assign) and '2 ** self.r' in norm(st.value)]
+        norms = [st for st, _ in walk(tq.node) if isinstance(st, (ast.Assign, ast.Return)) and st.value is not None and '2**self.r' in itext(tq, st.value)]
         run.check(len(norms) == 1 and isinstance(norms[0].value, ast.BinOp) and isinstance(norms[0].value.op, ast.Div), 'R6.qutip', tq, 'rho / 2**self.r',
                   'the density matrix is normalised by 2^r')
     # the projection kernel behind stabilizer_state
